@@ -136,8 +136,13 @@ package f64
 //@ requires len(t) >= len(s)
 //@ writes nothing
 
+// fsum: the sum of the first n elements (exact arithmetic, [real] clauses)
+//@ spec rec fsum(x []float64, n int) float64 decreases n = ite(n <= 0, 0, fsum(x, n-1) + x[n-1])
+
 //@ func Sum props: C07(safety) C08
 //@ writes nothing
+//@ ensures [real] result == fsum(x, len(x))
+//@ loop 1: invariant [real] sum == fsum(x, it)
 //@ ensures [real] forall(k, 0, len(x), x[k] >= 0) ==> result >= 0
 //@ loop 1: invariant [real] forall(k, 0, len(x), x[k] >= 0) ==> sum >= 0
 
